@@ -302,7 +302,7 @@ def task(prop, seed, size, cfgbins, sizes=(0, 1, 2, 3, 7), reps=1):
 
 def run(prop, tier, seed, t0):
     from .. import plan
-    cfgs = ['simd', 'serial32', 'fiat64', 'avx512'] if tier == 'quick' else plan.ALL_CFGS
+    cfgs = plan.ALL_CFGS
     bins, notes, failed = plan.bins_for(cfgs, ('rel', 'chk') if tier == 'thorough' else ('rel',))
     if failed:
         return plan.fail_build(prop, failed)
@@ -317,7 +317,7 @@ def run(prop, tier, seed, t0):
         groups = drawn + [((0, 1, 2, 3, 7), 3), ((64,), 1), ((94,), 1), ((95,), 1), ((96,), 1), ((249,), 1), ((250,), 1), ((400,), 1),
                   ((0, 1, 2, 3, 7, 16), 2), ((5, 33), 1)]
     else:
-        groups = [((0, 1, 2, 3, 7), 20)] * 8 + [((64,), 4), ((94,), 4), ((95,), 4), ((96,), 4), ((249,), 2), ((250,), 2),
+        groups = drawn * 2 + [((512, 513), 1), ((1024, 1025), 1)] + [((0, 1, 2, 3, 7), 20)] * 8 + [((64,), 4), ((94,), 4), ((95,), 4), ((96,), 4), ((249,), 2), ((250,), 2),
                                                  ((399,), 2), ((400,), 2), ((93, 97), 2), ((120, 300), 1), ((16, 33, 50), 6)] * 6
     for i, (sz, reps) in enumerate(groups):
         tasks.append(('vlib.props.c13', 'task', prop, seed * 1000 + i, 0, cb, {'sizes': sz, 'reps': reps}))
